@@ -12,6 +12,7 @@ import SwimVerif.Proofs.Routing
 import SwimVerif.Proofs.MultiReader
 import SwimVerif.Proofs.MultiReaderReady
 import SwimVerif.Proofs.MultiReaderPending
+import SwimVerif.Proofs.MultiReaderFair
 
 set_option linter.unusedSimpArgs false
 namespace SwimVerif.C11
@@ -469,13 +470,95 @@ theorem C11_pending_means_all_parked (ops : List MultiReader.Op)
   have hr := (pollNext_inv (flagCount st + 2) st hinv.1 hinv.2).2
   exact ⟨hn, fun k s hk => all_parked_of_noFlags _ hr hn k s hk⟩
 
-/-- (open) Fairness: a stream whose bit is set is polled within two rounds over the ready streams. -/
-def C11_fair_within_2n_polls_open : Prop :=
+/-- **Fairness, `fair_within_2n_polls`** (the proved form): a registered stream that holds an item `x` gets it
+delivered by one of the next `2 * (slab size) + 1` calls of `poll_next`, whatever the other streams hold: every one of
+these calls delivers exactly one item, all before the last come from other streams, the last is `(s, x)`. Hence at
+most `2 * entries.length` items of other streams overtake a ready stream (every other stream at most twice: once from
+the local flags, once more after its re-queued bit was flushed back into the bucket). Proof: the ranking function
+`MultiReader.rank` (`Proofs/MultiReaderRank.lean`, `Proofs/MultiReaderFair.lean`) gives every key a weight in
+`{0,1,2}` — how often its bit can still be taken before the target's bit (local flag below the target; bucket ahead of
+the target's bucket in the walk; own bucket / queue flags below the target) — never grows inside `get_next_stream`
+and drops with every delivery. -/
+theorem C11_fair_delivered_within_2n_polls (ops : List MultiReader.Op) (k s x : Nat) (rest : List Nat)
+    (hk : (mreach ops).entries[k]? = some (Entry.occ s))
+    (hq : ((mreach ops).sources.getD s {}).q = x :: rest) :
+    ∃ n, n ≤ 2 * (mreach ops).entries.length + 1 ∧ ∃ pre,
+      (MultiReader.run (mreach ops) (List.replicate n .poll)).delivered =
+        (mreach ops).delivered ++ pre ++ [(s, x)] ∧
+      (∀ p ∈ pre, p.1 ≠ s) ∧ pre.length + 1 = n := by
+  have hflag := C11_no_lost_ready ops k s hk (Or.inl (by rw [hq]; simp))
+  have hinv : WF (mreach ops) ∧ Ready (mreach ops) none := run_inv MultiReader.init ops inv_init.1 inv_init.2
+  generalize mreach ops = st at *
+  have hkL : k < st.entries.length := lt_of_getElem?_some _ _ _ hk
+  obtain ⟨n, hn, h⟩ := fair_run (rank st k) st k s x rest hinv.1 hinv.2 ⟨hk, hq, hflag⟩ (Nat.le_refl _)
+  have := rank_le st k hinv.1 hkL
+  exact ⟨n, by omega, h⟩
+
+/-- Fairness as first written: "… some `(s, x)` is in the delivered history afterwards that was not there before".
+FALSE as a statement about values (not a defect of `MultiReader`): item values may repeat, so the newly delivered
+pair can be equal to an older one — see `C11_fair_within_2n_polls_fails`; the position-based statement
+`C11_fair_delivered_within_2n_polls` holds without any hypothesis. -/
+def C11_fair_within_2n_polls : Prop :=
   ∀ (ops : List MultiReader.Op) (k s : Nat), (mreach ops).entries[k]? = some (Entry.occ s) →
     ((mreach ops).sources.getD s {}).q ≠ [] →
     ∃ n, n ≤ 2 * (mreach ops).entries.length + 1 ∧
       ∃ x, (s, x) ∈ (MultiReader.run (mreach ops) (List.replicate n .poll)).delivered ∧
            (s, x) ∉ (mreach ops).delivered
+
+/-- Witness: one source, `5` pushed, delivered, and pushed again — the second delivery is again the pair `(0, 5)`. -/
+theorem C11_fair_within_2n_polls_fails : ¬ C11_fair_within_2n_polls := by
+  intro h
+  obtain ⟨n, hn, x, hin, hnot⟩ := h [.add, .push 0 5, .poll, .push 0 5] 0 0 (by decide) (by decide)
+  have hd : (mreach [.add, .push 0 5, .poll, .push 0 5]).delivered = [(0, 5)] := by decide
+  have hl : (mreach [.add, .push 0 5, .poll, .push 0 5]).entries.length = 1 := by decide
+  rw [hd] at hnot
+  rw [hl] at hn
+  have hall : ∀ m, m ≤ 3 → ∀ p ∈ (MultiReader.run (mreach [.add, .push 0 5, .poll, .push 0 5])
+      (List.replicate m .poll)).delivered, p = (0, 5) := by decide
+  exact hnot (by rw [hall n (by omega) _ hin]; simp)
+
+/-- The statement as first written holds whenever the item at the head of the stream was not delivered from this
+stream before (e.g. all pushed items distinct, as in the generated traces). -/
+theorem C11_fair_within_2n_polls_partial (ops : List MultiReader.Op) (k s : Nat)
+    (hk : (mreach ops).entries[k]? = some (Entry.occ s))
+    (hq : ((mreach ops).sources.getD s {}).q ≠ [])
+    (hfresh : ∀ x ∈ ((mreach ops).sources.getD s {}).q.head?, (s, x) ∉ (mreach ops).delivered) :
+    ∃ n, n ≤ 2 * (mreach ops).entries.length + 1 ∧
+      ∃ x, (s, x) ∈ (MultiReader.run (mreach ops) (List.replicate n .poll)).delivered ∧
+           (s, x) ∉ (mreach ops).delivered := by
+  cases hq' : ((mreach ops).sources.getD s {}).q with
+  | nil => exact absurd hq' hq
+  | cons x rest =>
+    obtain ⟨n, hn, pre, hd, _, _⟩ := C11_fair_delivered_within_2n_polls ops k s x rest hk hq'
+    refine ⟨n, hn, x, by rw [hd]; simp, hfresh x (by rw [hq']; simp)⟩
+
+/-- distinct pushed items are enough for `hfresh` (per-source FIFO: delivered ++ queued = pushed) -/
+theorem C11_fresh_of_distinct_pushes (ops : List MultiReader.Op) (s x : Nat) (rest : List Nat)
+    (hq : ((mreach ops).sources.getD s {}).q = x :: rest)
+    (hd : (proj (mreach ops).pushed s).Nodup) : (s, x) ∉ (mreach ops).delivered := by
+  have hf := C11_per_source_fifo ops s
+  rw [← hf, hq] at hd
+  intro hin
+  have : x ∈ proj (mreach ops).delivered s := by
+    unfold proj
+    simp only [List.mem_map, List.mem_filter, beq_iff_eq]
+    exact ⟨(s, x), ⟨hin, rfl⟩, rfl⟩
+  have := (List.nodup_append.mp hd).2.2 x this x (by simp)
+  exact this rfl
+
+/-! non-vacuity: three streams in one bucket, stream 2 is ready while 0 and 1 keep delivering: it is reached by the
+third poll; and a stream of the second bucket (key 64) while the walk stands in the first -/
+example : (mreach [.add, .add, .add, .push 0 1, .push 0 2, .push 1 3, .push 1 4, .push 2 9]).entries[2]? =
+    some (Entry.occ 2) := by decide
+example : (MultiReader.run (mreach [.add, .add, .add, .push 0 1, .push 0 2, .push 1 3, .push 1 4, .push 2 9])
+    (List.replicate 3 .poll)).delivered = [(0, 1), (1, 3), (2, 9)] := by decide
+example : (MultiReader.run (mreach [.add, .add, .poll, .poll, .push 1 7, .push 0 1, .push 0 2, .poll, .push 1 8])
+    (List.replicate 3 .poll)).delivered = [(0, 1), (1, 7), (0, 2), (1, 8)] := by decide
+set_option maxRecDepth 100000 in
+example : (mreach [.addn 66, .poll, .push 0 1, .push 0 2, .push 1 3, .push 1 4, .push 64 9]).cur = 1 ∧
+    (MultiReader.run (mreach [.addn 66, .poll, .push 0 1, .push 0 2, .push 1 3, .push 1 4, .push 64 9])
+      (List.replicate 3 .poll)).delivered = [(0, 1), (1, 3), (64, 9)] ∧
+    rank (mreach [.addn 66, .poll, .push 0 1, .push 0 2, .push 1 3, .push 1 4, .push 64 9]) 64 = 3 := by decide
 
 example : (MultiReader.poll (mreach [.add, .add, .push 1 5, .poll])).2 = .pending := by decide
 example : parked (mreach [.add, .poll]) 0 0 := by unfold parked; decide
